@@ -171,13 +171,13 @@ def is_inversion_of(node, src_name):
 
 
 # ------------------------------------------------------------------------------ string dispatch
-def string_dispatch(body, var, mod_globals=None, mod_funcs=None):
+def string_dispatch(body, var, mod_globals=None, mod_funcs=None, mod_classes=None):
     """Extract ``if var == "a": ... elif var == "b": ... else: raise`` chains.
 
     Returns (chain: list of (key, body), else_body, node) for the first chain on ``var`` found at
     the top level of ``body`` (descending into nothing).  ``mod_globals`` (name -> value node) lets the
     table form refer to a module-level literal dict."""
-    d = _dict_dispatch(body, var, mod_globals, mod_funcs)
+    d = _dict_dispatch(body, var, mod_globals, mod_funcs, mod_classes)
     if d is not None:
         return d
     allowed = None   # keys admitted by an earlier `if var not in [...]: raise`
@@ -260,12 +260,26 @@ def _accessor_table(fn, tables):
                 s.body[0].value is not None and is_lookup(s.body[0].value) and s.handlers and \
                 all(h.body and isinstance(h.body[-1], ast.Raise) for h in s.handlers):
             return s.body[0].value.value.id, s.handlers[0].body
+        elif isinstance(s, ast.For) and isinstance(s.target, ast.Tuple) and len(s.target.elts) == 2 and \
+                isinstance(s.iter, ast.Call) and isinstance(s.iter.func, ast.Attribute) and s.iter.func.attr == "items" \
+                and isinstance(s.iter.func.value, ast.Name) and s.iter.func.value.id in tables and not s.orelse and \
+                len(s.body) == 1 and isinstance(s.body[0], ast.If) and not s.body[0].orelse and \
+                len(s.body[0].body) == 1 and isinstance(s.body[0].body[0], ast.Return):
+            # for key, row in TBL.items(): if p == key: return row      (linear search with ==)
+            kname, vname = (norm(x) for x in s.target.elts)
+            t_ = s.body[0].test
+            if isinstance(t_, ast.Compare) and len(t_.ops) == 1 and isinstance(t_.ops[0], ast.Eq) and \
+                    {norm(t_.left), norm(t_.comparators[0])} == {p_, kname} and norm(s.body[0].body[0].value) == vname:
+                rest = body[body.index(s) + 1:]
+                if rest and isinstance(rest[0], ast.Raise):
+                    return s.iter.func.value.id, [rest[0]]
+            return None
         else:
             return None
     return None
 
 
-def _dict_dispatch(body, var, mod_globals=None, mod_funcs=None):
+def _dict_dispatch(body, var, mod_globals=None, mod_funcs=None, mod_classes=None):
     """The table form of the same dispatch.  Look-ups of ``var`` in literal dicts with string keys
     (local, or module-level when ``mod_globals`` is given), directly or through a module-level
     accessor function (``mod_funcs``), optionally followed by a constant index / slice::
@@ -290,6 +304,11 @@ def _dict_dispatch(body, var, mod_globals=None, mod_funcs=None):
     def lookup(e):
         """(table name, selector, raise body or None) for a look-up expression of `var`."""
         sel = None
+        if isinstance(e, ast.Attribute):
+            inner = lookup(e.value)
+            if inner is not None and inner[1] is None:
+                return inner[0], ("attr", e.attr), inner[2]
+            return None
         if isinstance(e, ast.Subscript) and not (isinstance(e.value, ast.Name) and e.value.id in tables
                                                  and norm(e.slice) == var):
             inner = lookup(e.value)
@@ -303,9 +322,26 @@ def _dict_dispatch(body, var, mod_globals=None, mod_funcs=None):
             return accessors[e.func.id][0], None, accessors[e.func.id][1]
         return None
 
+    def record_fields(v):
+        """(Tuple of the positional arguments, field names) of a row written as a call of a module-level
+        NamedTuple class; (v, None) otherwise."""
+        if isinstance(v, ast.Call) and isinstance(v.func, ast.Name) and v.func.id in (mod_classes or {}) and not v.keywords:
+            cd = mod_classes[v.func.id]
+            if any("NamedTuple" in norm(b_) for b_ in cd.bases):
+                fields = [st.target.id for st in cd.body if isinstance(st, ast.AnnAssign) and isinstance(st.target, ast.Name)]
+                if len(fields) == len(v.args):
+                    t_ = ast.Tuple(elts=list(v.args), ctx=ast.Load())
+                    return ast.copy_location(t_, v), fields
+        return v, None
+
     def select(v, sel):
+        v, fields = record_fields(v)
         if sel is None:
             return v
+        if isinstance(sel, tuple) and sel[0] == "attr":
+            if fields and sel[1] in fields and isinstance(v, ast.Tuple):
+                return v.elts[fields.index(sel[1])]
+            return None
         if not isinstance(v, ast.Tuple):
             return None
         if isinstance(sel, ast.Constant) and isinstance(sel.value, int) and -len(v.elts) <= sel.value < len(v.elts):
@@ -364,6 +400,30 @@ def _dict_dispatch(body, var, mod_globals=None, mod_funcs=None):
     if else_body is None:
         else_body = [ast.Raise(exc=None, cause=None)]   # an unguarded look-up rejects unknown keys with KeyError
     return [(k, per_key[k]) for k in order], else_body, first
+
+
+def module_table_lookup(e, mod_globals, mod_funcs=None, mod_classes=None):
+    """For an expression that looks a key up in a module-level literal table (directly or through an
+    accessor function, with an optional index / slice / field selector) return the list of the selected
+    value nodes, one per key of the table; None when the expression is not such a look-up."""
+    key = None
+    for n in ast.walk(e):
+        if isinstance(n, ast.Subscript) and isinstance(n.value, ast.Name) and n.value.id in (mod_globals or {}) and \
+                _str_dict(mod_globals[n.value.id]):
+            key = norm(n.slice)
+        elif isinstance(n, ast.Call) and isinstance(n.func, ast.Name) and n.func.id in (mod_funcs or {}) and \
+                len(n.args) == 1 and not n.keywords:
+            key = norm(n.args[0])
+    if key is None:
+        return None
+    syn = ast.Assign(targets=[ast.Name(id="__selected__", ctx=ast.Store())], value=e)
+    try:
+        d = _dict_dispatch([syn], key, mod_globals, mod_funcs, mod_classes)
+    except AnalysisError:
+        return None
+    if d is None:
+        return None
+    return [b[0].value for _, b in d[0]]
 
 
 def _eq_keys(test, var):
